@@ -27,19 +27,19 @@ CHECKS = {
          "All operator sequences up to length 5 over + - * / ^ with every bracketing (Catalan), minimal and full parentheses, redundant parentheses, function-argument position (incl. a call as the digits argument), `to` chains whose root cast must be expressed in the target unit, every sequence of up to 3 operators over operands that carry a unit (a number with its unit is one value), two or three unit words after a number in every blank layout, and blank layouts (all combinations of homogeneous gaps for <=2 operators, uniform + 1/2-slot deviations beyond, deviations including gaps that mix spaces and tabs, and - judged when the tool takes each of these characters, asked alone, for a blank - gaps with NBSP, EM SPACE and THIN SPACE alone and next to ASCII blanks) are evaluated and compared with the reference evaluation of the tree the documented grammar prescribes.",
          "Trees outside the statement's domain (non-integer or >1000 exponents) are counted, not judged; + - and `to` keep >=1 blank as the statement says.", "3 C06"),
  "C07": ("exploration", E1 + ": the literal grammar up to length 7 plus a size ladder vs an own decimal reader",
-         "Every literal of the grammar up to length 7 over a reduced digit alphabet ({0,1,9}; thorough {0,1,5,9}), all ten digits to length 4 (thorough 5), plus 20..300-digit ladder literals, read by both the library parser and the query path and compared with an independent reader.",
+         "Every literal of the grammar up to length 7 over a reduced digit alphabet ({0,1,9}; thorough {0,1,5,9}), all ten digits to length 4 (thorough 5), plus 20..300-digit ladder literals, read by both the library parser and the query path and compared with an independent reader; histories in one thread of a string the grammar rejects half-way followed by a literal (17 x 7, through str::parse, two queries, two groups of one query).",
          "Exponent magnitudes > 999 are not judged (exact values with thousands of digits; C11 bounds exponents to 3 digits).", "3 C07"),
  "C08": ("exploration", E1 + ": value grid x every display spec, printed text re-read and judged",
          "Every value of a rational grid (small p/q, p/q*10^k for k in -40..40, neighbours of powers of ten, numerators and denominators at the machine-word edges 2^k-1, 2^k, 2^k+1 for k=8..128, a tenth of each, 10^18..10^20) under every limit x exponent_limit spec (quick 42, thorough 300), mark on and off; the printed text is re-read by an own reader and must be the truncation toward zero with mark iff something non-zero was cut.",
          "Magnitudes between grid points behave like the points.", "3 C08"),
  "C10": ("exploration", E1 + ": rational grid x {floor,ceil,round,round(x,n)} vs integer-arithmetic definitions, in release and debug-assertion builds",
-         "Every p/q of a grid (|p| <= 40, q <= 8; thorough |p| <= 400, q <= 40; negatives, integers, halves, boundary +-10^-k for k<=7, and integer/half +-10^-k for k in 8..25 at magnitudes 0..2^64) through floor/ceil/round/round(x,n), n=-6..6, two-step histories round(x,n1) then round(y,n2) on one thread for every ordered pair of 20 digit counts up to +-39, units carried, nested calls (a call as value or as digits argument), wrong arities incl. nested ones; compared with exact integer definitions; both build profiles so debug-only assertions count.",
+         "Every p/q of a grid (|p| <= 40, q <= 8; thorough |p| <= 400, q <= 40; negatives, integers, halves, boundary +-10^-k for k<=7, and integer/half +-10^-k for k in 8..25 at magnitudes 0..2^64) through floor/ceil/round/round(x,n), n=-6..6, two-step histories round(x,n1) then round(y,n2) on one thread for every ordered pair of 20 digit counts up to +-39, values of 40..900 digits rounded just below, at and above their own magnitude, units carried, nested calls (a call as value or as digits argument), wrong arities incl. nested ones; compared with exact integer definitions; both build profiles so debug-only assertions count.",
          "Non-integer digits arguments are not judged.", "3 C10"),
  "C09": ("exploration", E1 + ": magnitudes x scale pairs x chains x non-alone positions vs the affine formulas",
          "12 magnitudes x 36 scale-spelling pairs (thorough: also every multiple of 1/8 from -500 to 1000 x the nine scale pairs), all chains up to length 4 (thorough 5), every ordered pair of 21 prefixed scale words (m k n G milli kilo on K, degC, degF) x 5 magnitudes and chains through a prefixed scale, and several casts in one query, sums and differences of two temperatures over all 36 spelling pairs, each also converted afterwards to every scale (with and without parentheses), and every placement of a scale that is not alone with power one (powers, products, quotients) - the latter must be refused or treated as an interval, also when the other unit of the compound is converted by the same cast (6 unit pairs x 3 shapes x scale pairs x 2 values).",
          "The affine formulas are written out in the harness.", "3 C09"),
  "C11": ("exploration", E1 + ": token soups, unicode strings and 1/2-edit neighbourhoods of seeds; no panic/abort/hang, located errors; both build profiles and the real binary on a stride",
-         "All token sequences <=3 (4) over 46 tokens (incl. values that are zero only after a unit conversion) x joiner patterns, all unicode strings <=4 (5) over 30 code points, every 1-edit (thorough 2-edit) of 66 seeds, a repetition/nesting ladder (k up to 257) over 1..2 structural tokens, a two-byte character across 14 byte boundaries from 16 to 8192 in fact phrases and unit words, nested powers of a quantity of value one over seven two-digit exponents to depth 5 (6) so that the unit's power runs through every digit count of the machine word and past it, 14 single-error queries under leading/trailing blanks through the real binary (what it underlines must be the text the library's range selects), in release and debug-assertion builds; each result must display or be an error with an in-bounds char-boundary range that the diagnostic renderer accepts; worker processes attribute aborts and hangs to the input.",
+         "All token sequences <=3 (4) over 46 tokens (incl. values that are zero only after a unit conversion) x joiner patterns, all unicode strings <=4 (5) over 30 code points, every 1-edit (thorough 2-edit) of 66 seeds, a repetition/nesting ladder (k up to 257) over 1..2 structural tokens, a two-byte character across 14 byte boundaries from 16 to 8192 in fact phrases and unit words, every function over 22 argument magnitudes on both sides of the range of a machine float, nested powers of a quantity of value one over seven two-digit exponents to depth 5 (6) so that the unit's power runs through every digit count of the machine word and past it, 14 single-error queries under leading/trailing blanks through the real binary (what it underlines must be the text the library's range selects), in release and debug-assertion builds; each result must display or be an error with an in-bounds char-boundary range that the diagnostic renderer accepts; worker processes attribute aborts and hangs to the input.",
          "Inputs outside the statement's numeric bounds (>3-digit exponents, >2-digit powers) or with possibly astronomically large values are counted and skipped.", "3 C11"),
  "C12": ("exploration", E1 + ": all strings up to length 5 (thorough 6) over a 40-symbol alphabet through lexer and parser",
          "105 M (thorough 4.2 G) strings, every sequence of up to 6 whole tokens over a 12-token alphabet (3 M), every string up to length 3 parsed right after a unit string with trailing content went through str::parse::<Compound> on the same thread, and every sequence of 1..3 tokens repeated k times / nested k deep in ten wrappers for k up to 257: tokens non-empty, on char boundaries, tile the input; the tree's token leaves equal the token stream.",
@@ -60,7 +60,7 @@ CHECKS = {
          "CBOR (and JSON for rationals) round trips over a rational grid (thorough 2000/200), unit triples over a 10- (thorough 40-) unit core, incl. machine-word boundaries 2^k-1, 2^k, 2^k+1 (k=7..128) as numerator and denominator and compounds as the parser builds them from every prefix spelling x 16 unit words x 5 shapes; long decimals (10^k, 10^k+-1, 2^k, 3^k, k! at 14 lengths from 8 to 200 digits over 9 denominators, both signs); every shipped constant decoded directly and through the tool's own loader (looked up by its own words: stored value, unit, description, source); the encodings the previous builds wrote for the 8 base units (hand-written CBOR, alone and in compounds with 3 power/prefix pairs) decode to the unit; ids pairwise distinct and equal to the documented ids pinned in the harness; decoded units are the same statics.",
          "serde_cbor/serde_json are faithful carriers.", "3 C17"),
  "C19": ("exploration", E1 + ": query family x {default,--exact} through the real binary vs text rebuilt from library results",
-         "Value shapes x unit shapes x error/multi-result/fact compositions, every documented unit alone / squared / as denominator / in products and quotients / prefixed, exponents of every length from 2 to 10 digits, negative tiny/huge values, every ordered pair and triple (thorough: quadruple) of eight result kinds (two of them failed lookups) in one query - the sequence of result kinds must be that of the groups asked one by one, so results missing after an error are seen -, thorough also every ordered pair of 62 quantities as a product and a quotient, every documented unit under every prefix symbol and every shipped fact by its own words, both modes, run through the `any` binary built from /repo and compared line by line with the stated printing rule applied to the library's results; every printed unit is additionally re-read with the harness's own vocabulary table and must denote the computed unit (SI scale and dimensions), with a blank when it has a numerator part and none in front of a leading slash, no plural form when the value is one and none after the slash; in decimal mode the printed number is re-read and judged against the value with C08's oracle.",
+         "Value shapes x unit shapes x error/multi-result/fact compositions, every documented unit alone / squared / as denominator / in products and quotients / prefixed, exponents of every length from 2 to 10 digits, failed function calls nested 1..200 deep and repeated 2..130 times in front of results that call functions, negative tiny/huge values, every ordered pair and triple (thorough: quadruple) of eight result kinds (two of them failed lookups) in one query - the sequence of result kinds must be that of the groups asked one by one, so results missing after an error are seen -, thorough also every ordered pair of 62 quantities as a product and a quotient, every documented unit under every prefix symbol and every shipped fact by its own words, both modes, run through the `any` binary built from /repo and compared line by line with the stated printing rule applied to the library's results; every printed unit is additionally re-read with the harness's own vocabulary table and must denote the computed unit (SI scale and dimensions), with a blank when it has a numerator part and none in front of a leading slash, no plural form when the value is one and none after the slash; in decimal mode the printed number is re-read and judged against the value with C08's oracle.",
          "Decimal rendering is taken from the library (C08 judges it); no exit code and no diagnostic header format is required (a diagnostic is a margin line carrying the library's message, on stdout in order or on stderr); two display-only names (`fl oz`, `g` for gforce) are aliased in the re-reader.", "3 C19"),
  "C18": ("model_checking", "explicit-state search over operation histories executed on the real Db (state = history, canonicalised by probe-set answers) plus exhaustive expression enumeration",
          "All histories of length <=3 (4) over 22 operations (11 queries incl. two phrases the search backend itself rejects, a word shared by several constants, a full word set containing it, and a three-result query failing in the middle; describe on/off) on one shared Db: every step must answer as on a fresh Db and leave the probe-set answers unchanged; all histories <=3 over 20 lookup-free unit/number/function queries against hand-written exact expectations; histories over up to 16 nearly colliding full word sets against the independently decoded constants; 440 multi-result queries (incl. casts) whose computed results must all be described whatever fails around them; every distinct single word of the data set (described constant = value returned); the real binary with/without --describe over 8 phrases (sourced and sourceless constants): every ordered pair and triple of results and every product must print each phrase's own single-phrase description lines in order; all expressions with <=3 operands over literals and fact phrases with describe on/off, where the description order must agree with the evaluation order of every pair of operands as observed directly (both made to fail: whose error is reported).",
